@@ -545,10 +545,36 @@ fn exhaustive_orders() -> Vec<Case> {
     out
 }
 
+/// every recognised option x every boundary value, alone in a request (deterministic)
+fn boundary_sweep() -> Vec<Case> {
+    let values: [(&str, &[u64]); 4] = [
+        ("blksize", &[0, 1, 7, 8, 9, 511, 512, 513, 1428, 65463, 65464, 65465, 65535, 65536, 131072 + 8, (1 << 32) + 512]),
+        ("windowsize", &[0, 1, 2, 3, 64, 65534, 65535, 65536, 65537, 131071, (1 << 32) + 1]),
+        ("timeout", &[0, 1, 2, 5, 254, 255]),
+        ("tsize", &[0, 1, 2500, 1 << 32, u64::MAX]),
+    ];
+    let mut out = vec![];
+    for (name, vals) in values {
+        for (k, v) in vals.iter().enumerate() {
+            for write in [false, true] {
+                let single = (k + write as usize) % 2 == 0;
+                // keep one burst small: a file of a few blocks of the effective block size
+                let blk = if name == "blksize" && (8..=65464).contains(v) { *v as usize } else { 512 };
+                let ws = if name == "windowsize" && (1..=65535).contains(v) { *v as usize } else { 1 };
+                let blocks = if blk > 4096 { 2 } else { (ws + 2).min(5) };
+                out.push(Case { single, write, file_len: blocks * blk + 3, opts: vec![(name.to_string(), v.to_string())], timing: false, seed: 90 + k as u64, big_burst: false });
+            }
+        }
+    }
+    out
+}
+
 pub fn run(ctx: &Ctx) {
-    ctx.set_rule("exhaustive: all 65 ordered selections of the four options (valid values) x 3 name spellings x RRQ/WRQ x port mode; random: per case a fresh real tftpd (single/multi port) and one request built from a generated subset and order of {blksize,timeout,tsize,windowsize} (names in lower/upper/mixed case, unknown options interleaved, values at and around every boundary) for an RRQ of a file of 0..3W+1 blocks or a WRQ. Oracle: OACK iff >=1 recognised option and none unhonourable; OACK lists only requested options with blksize/timeout/windowsize <= requested and in range, tsize = true file size (RRQ) / echo (WRQ); unhonourable values (timeout 0, windowsize 0 or >65535, blksize outside 8..65464) are never acknowledged (silence, ERROR or omission accepted); without OACK: DATA 1 / ACK 0 and 512-byte lock-step. The model client then measures the transfer: every non-final DATA has exactly the acknowledged blksize, every burst has exactly min(W, blocks left) consecutive blocks and nothing beyond, an upload is acknowledged after exactly W blocks and not before, content is byte-identical, and in timing cases (acknowledged timeout 1-2 s) the first retransmission comes no earlier than the acknowledged timeout. A second part downloads with windows larger than the default socket buffer (windowsize x blksize up to ~1.5 MB; the model client enlarges its receive buffer with SO_RCVBUFFORCE) so that 'exactly W blocks per burst' is also measured for large windows. Non-trivial = >=2 recognised options or a boundary value; distinct = distinct cases. Failures are re-run once in isolation before being reported.");
+    ctx.set_rule("deterministic: every option alone with every boundary value (0, 1, range edges, edges +-1, beyond 2^16 and 2^32) x RRQ/WRQ; all 65 ordered selections of the four options (valid values) x 3 name spellings x RRQ/WRQ x port mode; random: per case a fresh real tftpd (single/multi port) and one request built from a generated subset and order of {blksize,timeout,tsize,windowsize} (names in lower/upper/mixed case, unknown options interleaved, values at and around every boundary) for an RRQ of a file of 0..3W+1 blocks or a WRQ. Oracle: OACK iff >=1 recognised option and none unhonourable; OACK lists only requested options with blksize/timeout/windowsize <= requested and in range, tsize = true file size (RRQ) / echo (WRQ); unhonourable values (timeout 0, windowsize 0 or >65535, blksize outside 8..65464) are never acknowledged (silence, ERROR or omission accepted); without OACK: DATA 1 / ACK 0 and 512-byte lock-step. The model client then measures the transfer: every non-final DATA has exactly the acknowledged blksize, every burst has exactly min(W, blocks left) consecutive blocks and nothing beyond, an upload is acknowledged after exactly W blocks and not before, content is byte-identical, and in timing cases (acknowledged timeout 1-2 s) the first retransmission comes no earlier than the acknowledged timeout. A second part downloads with windows larger than the default socket buffer (windowsize x blksize up to ~1.5 MB; the model client enlarges its receive buffer with SO_RCVBUFFORCE) so that 'exactly W blocks per burst' is also measured for large windows. Non-trivial = >=2 recognised options or a boundary value; distinct = distinct cases. Failures are re-run once in isolation before being reported.");
     ctx.assume("burst size min(W, blocks) x (blksize+100) is kept below 100 KB so that loopback never drops datagrams; timeouts > 255 s are not generated; early-retransmission tolerance 130 ms");
     let dirs = DirPool::new(ctx, "c09");
+    let sweep = boundary_sweep();
+    enumerate(ctx, "boundary-sweep", &sweep, true, |c, o| dirs.with(|d| judge(d, c, o)));
     let orders = exhaustive_orders();
     enumerate(ctx, "exh-subsets-and-orders", &orders, true, |c, o| dirs.with(|d| judge(d, c, o)));
     explore_n(ctx, "random", ctx.tier.pick(4_000, 150_000), shards(), 24, strategy, |c: &Case, o| dirs.with(|d| judge(d, c, o)));
